@@ -37,6 +37,18 @@ def c08_classify(inp, out):
             "form:" + form, "mut:" + ":".join(mut.split(":")[:2]), res, "mut/res:" + mut.split(":")[0] + "/" + res]
 
 
+def c17_classify(inp, out):
+    f = inp.split("|")
+    n = int(f[1])
+    k = len(set(f[3].split(",")))
+    ks = ["entry:" + f[0], "n:" + ("1" if n == 1 else "2-7" if n < 8 else "8-16" if n <= 16 else "17+"),
+          "reveal:" + ("all" if k == n else "one" if k == 1 else "some"), "nonce:" + f[4], "neg:" + f[5].split(":")[0]]
+    for w in out.split(" "):
+        if w.startswith("neg=") or w.startswith("derive=") or w.startswith("honest="):
+            ks.append(w)
+    return ks
+
+
 def c14_classify(inp, out):
     cfg, ops = inp.split("|", 1)
     f = cfg.split(",")
@@ -204,6 +216,30 @@ PROPS = {
         "assumptions": ["one resolvable DID with 26 verification methods; key material generated once per run",
                         "DER-encoded ECDSA signatures are accepted on purpose (both encodings are a signature by the key)",
                         "completeness is not demanded by the property: a rejected honest token is only an L2 (model) matter"],
+    },
+    "C17": {
+        "lean_files": ["AriesVerif/C17/Model.lean", "AriesVerif/C17/Props.lean", "AriesVerif/C17/Algebra.lean",
+                       "AriesVerif/C17/Drv.lean"],
+        "lake_targets": ["AriesVerif"],
+        "classify": c17_classify,
+        "nontrivial": lambda inp, out: "honest=ok" in out and ("neg=fail" in out or "neg=ok" in out),
+        "thorough_seeds": 2,
+        "case_timeout": 180,
+        "rule": "sign / derive / verify through the primitive and through the tinkcrypto service (KMS handles): every non-empty "
+                "subset of 1..4 messages (thorough: 1..7), random subsets of up to 32 (and 63..65) messages, empty / long / equal "
+                "messages, three nonce shapes; the verifier is handed the honest input and one altered input (changed, dropped, "
+                "swapped, supplemented, prepended message; all messages; other nonce / key; one flipped proof bit at any "
+                "position; payload count or padding bit altered; truncated proof); each proof is verified twice with the same "
+                "bytes; non-trivial = honest proof accepted and an altered input judged; distinct (input class, outcome)",
+        "trusted_base": ["ideal proof system in the model: an untouched proof verifies exactly for the bound (index, message) "
+                         "pairs, nonce and key (soundness of the Schnorr-style proof and independence of hashed generators are "
+                         "cryptographic assumptions; Algebra.lean proves completeness and that the checked equation leaves no "
+                         "freedom in the disclosed messages)",
+                         "IBM/mathlib BLS12-381 arithmetic and pairing", "message -> field element hashing is injective on the "
+                         "message alphabet of the harness"],
+        "assumptions": ["revealed indexes are distinct (the property quantifies over subsets)",
+                        "credential-level selective disclosure (statement <-> index mapping of bbsblssignatureproof2020) is "
+                        "not driven by this check"],
     },
     "C14": {
         "lean_files": ["AriesVerif/C14/Model.lean", "AriesVerif/C14/Props.lean", "AriesVerif/C14/Drv.lean"],
